@@ -48,6 +48,10 @@ pub enum TOp {
     InjectorUnmet { calls: u8, extra: u8 },
     Preventer { calls: u8, exit_panic: bool },
     Spin(u16),
+    /// like Injector, plus a fake on a function of its own page whose restoration at scope exit
+    /// fails (every mprotect of that page is refused from then on): the drop panics half-way;
+    /// the holder has let go all the same and a waiting thread must get its turn
+    InjectorRestoreFault { calls: u8 },
 }
 
 #[derive(Serialize, Deserialize, Clone, Debug, Hash, PartialEq, Eq)]
@@ -150,6 +154,42 @@ fn run_op(t: usize, op: &TOp, foreign: &std::sync::Mutex<Vec<String>>) -> Result
                 Err(_) => Ok(()),
                 Ok(()) => Err(format!("thread {t}: scope exit with an unmet expectation did not panic")),
             }
+        }
+        TOp::InjectorRestoreFault { calls } => {
+            static FAULT_SEQ: AtomicU64 = AtomicU64::new(0);
+            let seq = FAULT_SEQ.fetch_add(1, SeqCst);
+            let base = 0x0000_3A00_0000_0000usize + (seq as usize) * 2 * crate::arena::PAGE;
+            let Some(a) = crate::arena::Arena::map(base, crate::arena::PAGE) else { return Ok(()) };
+            let lone = base + 0x40;
+            a.put_ret_id(lone, 0x10E);
+            a.seal();
+            std::mem::forget(a); // stays patched after the failed restoration: never reused
+            let _ = std::panic::catch_unwind(|| {
+                if HOLDERS.load(SeqCst) > 0 {
+                    CONTENDED.fetch_add(1, SeqCst);
+                }
+                let mut inj = ip::sut(InjectorPP::new);
+                let _h = Holding::enter();
+                ip::sut(|| {
+                    inj.when_called(injectorpp::func!(fn (shared_fn)() -> u64)).will_execute_raw(fake_ptr(t));
+                    unsafe {
+                        inj.when_called(FuncPtr::new(lone as *const (), "fn() -> u64")).will_execute_raw(fake_ptr(t));
+                    }
+                });
+                for _ in 0..*calls {
+                    let v = shared_fn();
+                    if v != 100 + (t as u64 % 8) {
+                        foreign.lock().unwrap().push(format!("thread {t} holding an injector with its fake {} saw {v}", 100 + t % 8));
+                    }
+                }
+                drop(_h);
+                ip::MPROTECT_FAIL_PAGE.store((lone & !0xFFF) as u64, SeqCst);
+                // the restoration of `lone` (installed last, restored first) cannot make its page
+                // writable: whatever the library does about it, it must not keep the lock
+                ip::sut(|| drop(inj));
+            });
+            ip::MPROTECT_FAIL_PAGE.store(0, SeqCst);
+            Ok(())
         }
         TOp::Spin(k) => {
             for _ in 0..*k {
@@ -305,6 +345,7 @@ pub fn execute(c: &ThreadCase) -> ThreadObs {
                 TOp::Preventer { exit_panic: false, .. } => "preventer/drop",
                 TOp::Preventer { exit_panic: true, .. } => "preventer/panic",
                 TOp::Spin(_) => "spin",
+                TOp::InjectorRestoreFault { .. } => "injector/restoration-fault",
             });
         }
     }
@@ -322,6 +363,7 @@ pub fn strategy() -> impl Strategy<Value = ThreadCase> {
         2 => (0u8..3, 0u8..=12).prop_map(|(calls, extra)| TOp::InjectorUnmet { calls, extra }),
         3 => (0u8..6, prop::bool::weighted(0.25)).prop_map(|(calls, exit_panic)| TOp::Preventer { calls, exit_panic }),
         1 => (0u16..400).prop_map(TOp::Spin),
+        1 => (0u8..3).prop_map(|calls| TOp::InjectorRestoreFault { calls }),
     ];
     let script = prop::collection::vec(op, 1..=12);
     (prop::collection::vec(script, 2..=8), prop::collection::vec((0u8..4, 0u8..24), 0..=4), prop_oneof![1 => Just(0u16), 3 => 100u16..2000]).prop_map(|(scripts, pauses, pause_us)| ThreadCase { scripts, pauses, pause_us })
@@ -383,6 +425,9 @@ pub fn judge(rec: &mut Recorder, c: &ThreadCase, ex: Exec, _hello: &Value) -> Re
     rec.count("pauses_taken", o.pauses_taken);
     let both_kinds = o.kinds.iter().any(|k| k.starts_with("injector")) && o.kinds.iter().any(|k| k.starts_with("preventer"));
     let both_exits = o.kinds.iter().any(|k| k.ends_with("panic")) && o.kinds.iter().any(|k| k.ends_with("/drop"));
+    if o.kinds.iter().any(|k| k == "injector/restoration-fault") {
+        rec.class("has-exit-with-failing-restoration");
+    }
     if o.kinds.iter().any(|k| k == "injector/verification-panic") {
         rec.class("has-exit-by-verification-panic");
     }
